@@ -413,3 +413,143 @@ pub mod gen {
         }
     }
 }
+
+pub mod split {
+    //! C01 controls: a copy of the per-property splitter / lookup with seeded defects:
+    //!  * the carried easing is updated by every keyframe that has one, also those that omit the property (R1)
+    //!  * an index-map entry is added only for keyframes that define the property (R1)
+    //!  * the lookup before a frame returns (frame idx, frame idx) instead of (idx-1, idx) (R2)
+    //!  * the eased lerp takes the easing of the END frame (R3)
+    use mina_core::easing::{Easing, EasingFunction};
+    use mina_core::interpolation::Lerp;
+
+    #[derive(Clone)]
+    pub struct CtlKeyframe<Data: Clone> {
+        pub data: Data,
+        pub easing: Option<Easing>,
+        pub normalized_time: f32,
+    }
+
+    #[derive(Clone)]
+    pub struct CtlSub<Value: Clone> {
+        frames: Vec<CtlSplit<Value>>,
+        frame_index_map: Vec<usize>,
+        start_frame_override: Option<CtlSplit<Value>>,
+    }
+
+    #[derive(Clone)]
+    struct CtlSplit<Value: Clone> {
+        easing: Easing,
+        normalized_time: f32,
+        value: Value,
+    }
+
+    impl<Value: Clone> CtlSplit<Value> {
+        fn new(normalized_time: f32, value: Value, easing: Easing) -> Self {
+            Self { normalized_time, value, easing }
+        }
+
+        fn with_time(&self, normalized_time: f32) -> Self {
+            CtlSplit::new(normalized_time, self.value.clone(), self.easing.clone())
+        }
+    }
+
+    impl<Value: Clone + Lerp> CtlSub<Value> {
+        pub fn from_keyframes<'a, Data: 'a + Clone, ValueFn>(
+            keyframes: impl IntoIterator<Item = &'a CtlKeyframe<Data>>,
+            default_value: Value,
+            get_value: ValueFn,
+            default_easing: Easing,
+        ) -> Self
+        where
+            ValueFn: Fn(&Data) -> Option<Value>,
+        {
+            let mut converted_frames = Vec::new();
+            let mut frame_index_map = Vec::new();
+            let mut current_easing = default_easing;
+            let mut has_frame_data = false;
+            for keyframe in keyframes.into_iter() {
+                if converted_frames.is_empty() && keyframe.normalized_time > 0.0 {
+                    converted_frames.push(CtlSplit::new(0.0, default_value.clone(), current_easing.clone()));
+                }
+                // control: easing carried over from keyframes that omit the property as well
+                if let Some(easing) = &keyframe.easing {
+                    current_easing = easing.clone();
+                }
+                if let Some(data) = get_value(&keyframe.data) {
+                    has_frame_data = true;
+                    converted_frames.push(CtlSplit::new(keyframe.normalized_time, data, current_easing.clone()));
+                    // control: index-map entry only for keyframes with data
+                    frame_index_map.push(converted_frames.len().max(1) - 1);
+                }
+            }
+            if !has_frame_data {
+                return Self { frame_index_map: vec![], frames: vec![], start_frame_override: None };
+            }
+            let trailing_frame = match converted_frames.last() {
+                Some(frame) if frame.normalized_time < 1.0 => Some(frame.with_time(1.0)),
+                _ => None,
+            };
+            if let Some(trailing_frame) = trailing_frame {
+                converted_frames.push(trailing_frame);
+            }
+            Self { frames: converted_frames, frame_index_map, start_frame_override: None }
+        }
+
+        pub fn value_at(&self, normalized_time: f32, index_hint: usize, enable_start_override: bool) -> Option<Value> {
+            if self.frame_index_map.is_empty() {
+                return None;
+            }
+            let normalized_time = normalized_time.clamp(0.0, 1.0);
+            let bounding_frames = self.get_bounding_frames(normalized_time, index_hint, enable_start_override)?;
+            Some(ctl_interpolate(&bounding_frames, normalized_time))
+        }
+
+        fn get_bounding_frames(
+            &self,
+            normalized_time: f32,
+            index_hint: usize,
+            enable_start_override: bool,
+        ) -> Option<[&CtlSplit<Value>; 2]> {
+            let index_at = *self.frame_index_map.get(index_hint)?;
+            let frame_at = self.get_frame(index_at, enable_start_override)?;
+            if normalized_time < frame_at.normalized_time {
+                if index_at > 0 {
+                    // control: wrong neighbour
+                    Some([self.get_frame(index_at, enable_start_override)?, frame_at])
+                } else {
+                    None
+                }
+            } else if index_at == self.frames.len() - 1 {
+                Some([frame_at, frame_at])
+            } else {
+                self.frames.get(index_at + 1).map(|next_frame| [frame_at, next_frame])
+            }
+        }
+
+        fn get_frame(&self, index: usize, enable_start_override: bool) -> Option<&CtlSplit<Value>> {
+            if enable_start_override && index == 0 {
+                if let Some(ref override_frame) = self.start_frame_override {
+                    Some(override_frame)
+                } else {
+                    self.frames.get(0)
+                }
+            } else {
+                self.frames.get(index)
+            }
+        }
+    }
+
+    fn ctl_interpolate<Value: Clone + Lerp>(bounding_frames: &[&CtlSplit<Value>; 2], time: f32) -> Value {
+        let [start_frame, end_frame] = bounding_frames;
+        let duration = end_frame.normalized_time - start_frame.normalized_time;
+        if duration == 0.0 {
+            return start_frame.value.clone();
+        }
+        // control: easing of the end frame
+        let easing = &end_frame.easing;
+        let x = (time - start_frame.normalized_time) / duration;
+        let y = easing.calc(x);
+        start_frame.value.lerp(&end_frame.value, y)
+    }
+}
